@@ -1,6 +1,7 @@
 //! C15 — close-group membership needs a Byzantine quorum; f liars cannot force it.
 //!
 //! `CloseGroupValidator::validate_membership` is a pure verdict function. The monitor feeds it
+//!   * a few fixed probes with the default configuration (so every replay starts with a small witness),
 //!   * EXHAUSTIVELY every witness multiset of size 0..=4 (quick) / 0..=5 (thorough) over the grid
 //!     confirm{y,n} x trust{none,0.1,0.29,0.3,0.9} x region{none,A,B,C,D} x latency{40,50,200 ms},
 //!     for both modes, both enforcement modes, candidate trust none/low/high and several
@@ -34,6 +35,11 @@ use vkit::{Monitor, Rng};
 /// and attack mode discards every other answer). `false`: any confirming answer may supply a region.
 /// Both readings are evaluated; under `false` the strict-only cases are merely counted.
 const REGIONS_MUST_COME_FROM_TRUSTED_CONFIRMERS: bool = true;
+
+/// Reading of "witness" in the repeated-answers lane. `true`: a witness is a distinct peer id, so a
+/// peer answering k times is ONE witness ("3f+1 trusted witnesses, f of them answering arbitrarily").
+/// `false`: every answer is a witness of its own; the lane then only counts what it sees.
+const WITNESS_IS_A_DISTINCT_PEER: bool = true;
 
 /// "distinct response times" in the acceptance corollary: the library calls two latencies similar
 /// when they are closer than 10 ms (hard-coded). Used ONLY as the premise of that corollary.
@@ -170,7 +176,8 @@ const C_DUP_NORMAL: usize = 25;
 const C_LENIENT_ONLY: usize = 26;
 const C_BFT_FLAG_SEEN: usize = 27;
 const C_CAND_NONE_ACC: usize = 28;
-const NAMES: [&str; 29] = [
+const C_DUP_BFT: usize = 29;
+const NAMES: [&str; 30] = [
     "verdict.bft.accept",
     "verdict.bft.reject",
     "verdict.normal.accept",
@@ -200,6 +207,7 @@ const NAMES: [&str; 29] = [
     "observed.bft_accept_with_regions_from_untrusted_confirmers",
     "observed.bft_collusion_flag_raised",
     "observed.unknown_trust_candidate_accepted",
+    "observed.repeated_answers_accept_in_attack_mode_against_distinct_peer_reading",
 ];
 
 struct Loc {
@@ -245,6 +253,8 @@ struct V {
     p: Policy,
     label: String,
     cfg_id: u64,
+    /// which of G_CANDS this validator is run with in the exhaustive lane (bit per index)
+    cands: u8,
 }
 
 fn mk(cfg: &CloseGroupValidatorConfig, bft: bool, label: &str, cfg_id: u64) -> V {
@@ -257,6 +267,7 @@ fn mk(cfg: &CloseGroupValidatorConfig, bft: bool, label: &str, cfg_id: u64) -> V
         p: Policy::of(cfg),
         label: label.to_string(),
         cfg_id,
+        cands: 0b111,
     }
 }
 
@@ -376,10 +387,12 @@ fn judge(mon: &Monitor, loc: &mut Loc, v: &V, cand: Option<f64>, f: &Facts, o: O
     if o.valid && cc == 0 { loc.c[C_CAND_NONE_ACC] += 1; }
     if f.n >= p.min_witnesses {
         loc.c[C_NONTRIV] += 1;
+        // sizes above 10 in buckets of 5, confirmations of large sets as a decile, regions capped at 5
+        let b = |x: usize| if x <= 10 { x as u64 } else { 11 + (x as u64 - 11) / 5 };
+        let ty = if f.trusted <= 10 { f.trusted_yes as u64 } else { 16 + (f.trusted_yes * 10 / f.trusted) as u64 };
         let sig = (v.bft as u64) | (v.log_only as u64) << 1 | cc << 2 | (o.valid as u64) << 4 | (f.separated as u64) << 5
-            | ((o.reasons & 15) as u64) << 6 | (f.n as u64 & 63) << 10 | (f.trusted as u64 & 63) << 16
-            | (f.trusted_yes as u64 & 63) << 22 | (f.regions_yes as u64 & 15) << 28 | (f.regions_yes_trusted as u64 & 15) << 32
-            | (f.unk_all.min(3) as u64) << 36 | (v.cfg_id & 0xffff) << 40;
+            | ((o.reasons & 15) as u64) << 6 | b(f.n) << 10 | b(f.trusted) << 16 | ty << 22
+            | (f.regions_yes.min(5) as u64) << 28 | (f.regions_yes_trusted.min(5) as u64) << 32 | (v.cfg_id & 0xffff) << 40;
         loc.case(mon, sig);
     }
     // ---- the statement's necessary conditions for acceptance ----
@@ -505,11 +518,14 @@ impl<'a> Exh<'a> {
                 // one canonical confirm assignment per multiset: among equal neighbours confirmers first
                 let canonical = (0..n.saturating_sub(1)).all(|j| types[j] != types[j + 1] || (mask >> j) & 1 >= (mask >> (j + 1)) & 1);
                 if canonical {
-                    loc.c[C_CANON] += (self.vs.len() * G_CANDS.len()) as u64;
+                    loc.c[C_CANON] += self.vs.iter().map(|v| v.cands.count_ones() as u64).sum::<u64>();
                 }
             }
             for (vi, v) in self.vs.iter().enumerate() {
                 for (ci, cand) in G_CANDS.iter().enumerate() {
+                    if v.cands >> ci & 1 == 0 {
+                        continue;
+                    }
                     let r = v.v.validate_membership(&self.node, &self.resp, *cand);
                     let o = observe(&r);
                     judge(self.mon, loc, v, *cand, &f, o, &ws[..n]);
@@ -524,6 +540,9 @@ impl<'a> Exh<'a> {
         for (vi, v) in self.vs.iter().enumerate() {
             for (ci, cand) in G_CANDS.iter().enumerate() {
                 let a = self.bm[vi * G_CANDS.len() + ci];
+                if v.cands >> ci & 1 == 0 {
+                    continue;
+                }
                 for i in 0..n {
                     loc.evals += 1u64 << (n - 1);
                     loc.c[C_FLIPS] += 1u64 << (n - 1);
@@ -552,37 +571,44 @@ impl<'a> Exh<'a> {
 fn exh_validators(n: usize, quick: bool) -> (Vec<V>, Vec<String>) {
     let mut out = Vec::new();
     let mut labels = Vec::new();
-    let mut push = |cfg: CloseGroupValidatorConfig, label: String, both_enf: bool, out: &mut Vec<V>| {
-        let enfs: &[CloseGroupEnforcementMode] = if both_enf {
-            &[CloseGroupEnforcementMode::Strict, CloseGroupEnforcementMode::LogOnly]
-        } else {
-            &[CloseGroupEnforcementMode::Strict]
-        };
-        for e in enfs {
-            let c = cfg.clone().with_enforcement_mode(*e);
+    // cands: bit per G_CANDS index (none, 0.1, 0.9); log_only_cands == 0 leaves LogOnly out
+    let mut push = |cfg: CloseGroupValidatorConfig, label: &str, strict_cands: u8, log_only_cands: u8, out: &mut Vec<V>| {
+        for (e, cands) in [(CloseGroupEnforcementMode::Strict, strict_cands), (CloseGroupEnforcementMode::LogOnly, log_only_cands)] {
+            if cands == 0 {
+                continue;
+            }
+            let c = cfg.clone().with_enforcement_mode(e);
             let id = out.len() as u64 / 2 + 1;
-            let l = format!("{label}{}", if *e == CloseGroupEnforcementMode::LogOnly { ",log-only" } else { ",strict" });
-            labels.push(l.clone());
-            out.push(mk(&c, false, &l, id));
-            out.push(mk(&c, true, &l, id));
+            let l = format!("{label}{}", if e == CloseGroupEnforcementMode::LogOnly { ",log-only" } else { ",strict" });
+            labels.push(format!("{l} x candidate trust {}", ["-", "none", "0.1", "none,0.1", "0.9", "none,0.9", "0.1,0.9", "none,0.1,0.9"][cands as usize]));
+            for bft in [false, true] {
+                let mut v = mk(&c, bft, &l, id);
+                v.cands = cands;
+                out.push(v);
+            }
         }
     };
     let with_mp = |mp: usize| CloseGroupValidatorConfig { min_peers_to_query: mp, max_peers_to_query: mp + 5, ..Default::default() };
     let maint = |f: usize| CloseGroupValidatorConfig::from_maintenance_config(&MaintenanceConfig { bft_fault_tolerance: f, ..Default::default() });
+    const F0: &str = "from_maintenance(f=0):min_peers=1,bft=1.0";
+    const F1: &str = "from_maintenance(f=1):min_peers=4,bft=0.75";
     if n <= 3 || (!quick && n == 4) {
-        // full product: every min_peers value that lets the set through, the default (5) and one above
+        // full product; min_peers above the set size only exercises the minimum-responses gate
         for mp in 1..=(if n <= 3 { 7 } else { 5 }) {
-            push(with_mp(mp), format!("default,min_peers={mp}"), true, &mut out);
+            push(with_mp(mp), &format!("default,min_peers={mp}"), 0b111, 0b111, &mut out);
         }
-        push(maint(0), "from_maintenance(f=0):min_peers=1,bft=1.0".into(), false, &mut out);
-        push(maint(1), "from_maintenance(f=1):min_peers=4,bft=0.75".into(), false, &mut out);
+        push(maint(0), F0, 0b111, 0, &mut out);
+        push(maint(1), F1, 0b111, 0, &mut out);
     } else if n == 4 {
-        push(with_mp(4), "default,min_peers=4".into(), true, &mut out);
-        push(with_mp(3), "default,min_peers=3".into(), false, &mut out);
-        push(maint(1), "from_maintenance(f=1):min_peers=4,bft=0.75".into(), false, &mut out);
+        push(with_mp(4), "default,min_peers=4", 0b111, 0b111, &mut out);
+        push(with_mp(3), "default,min_peers=3", 0b111, 0, &mut out);
+        push(maint(1), F1, 0b111, 0, &mut out);
     } else {
-        push(CloseGroupValidatorConfig::default(), "default,min_peers=5".into(), true, &mut out);
-        push(maint(1), "from_maintenance(f=1):min_peers=4,bft=0.75".into(), false, &mut out);
+        // size 5: the library default (Strict) with every candidate class and the f=1 configuration with
+        // the trusted candidate; LogOnly, which never influenced a verdict at sizes <= 4, is left to the
+        // sampled lane at this size
+        push(CloseGroupValidatorConfig::default(), "default,min_peers=5", 0b111, 0, &mut out);
+        push(maint(1), F1, 0b100, 0, &mut out);
     }
     (out, labels)
 }
@@ -600,56 +626,62 @@ fn exhaustive_size(mon: &Monitor, loc: &mut Loc, rng: &mut Rng, shard: usize, ns
         resp: Vec::with_capacity(MAX_N),
         bm: vec![0; vs.len() * G_CANDS.len()],
     };
-    let mut a = [0u8; MAX_N];
-    let mut counter = 0u64;
+    // the biggest size is swept in 8 interleaved passes, so that a run cut by the time budget has
+    // still covered an evenly spread part of the space
+    let passes: u64 = if n == MAX_N { 8 } else { 1 };
+    let stride = nshards as u64 * passes;
     let mut mine = 0u64;
-    'outer: loop {
-        if counter % nshards as u64 == shard as u64 {
-            if mine % 128 == 0 {
-                loc.flush(mon);
-                if mon.time_up() {
-                    break 'outer;
+    'passes: for pass in 0..passes {
+        let mut a = [0u8; MAX_N];
+        let mut counter = 0u64;
+        'outer: loop {
+            if counter % stride == shard as u64 + pass * nshards as u64 {
+                if mine % 128 == 0 {
+                    loc.flush(mon);
+                    if mon.time_up() {
+                        break 'passes;
+                    }
                 }
-            }
-            ex.shape(loc, &a[..n], true);
-            mine += 1;
-            loc.c[C_SHAPES] += 1;
-            // order of responses: re-run 1 shape in 64 in a random order and compare verdict cubes
-            if n >= 2 && mine % 64 == 0 {
-                let canon = ex.bm.clone();
-                let mut perm: Vec<usize> = (0..n).collect();
-                rng.shuffle(&mut perm);
-                let pt: Vec<u8> = perm.iter().map(|&j| a[j]).collect();
-                ex.shape(loc, &pt, false);
-                loc.c[C_PERMS] += 1;
-                for (k, bm) in ex.bm.iter().enumerate() {
-                    for m2 in 0u32..(1 << n) {
-                        // position j of the permuted order holds original witness perm[j]
-                        let mut m = 0u32;
-                        for (j, &src) in perm.iter().enumerate() {
-                            m |= ((m2 >> j) & 1) << src;
-                        }
-                        if (bm >> m2) & 1 != (canon[k] >> m) & 1 {
-                            loc.c[C_ORDER] += 1;
+                ex.shape(loc, &a[..n], true);
+                mine += 1;
+                loc.c[C_SHAPES] += 1;
+                // order of responses: re-run 1 shape in 64 in a random order and compare verdict cubes
+                if n >= 2 && mine % 64 == 0 {
+                    let canon = ex.bm.clone();
+                    let mut perm: Vec<usize> = (0..n).collect();
+                    rng.shuffle(&mut perm);
+                    let pt: Vec<u8> = perm.iter().map(|&j| a[j]).collect();
+                    ex.shape(loc, &pt, false);
+                    loc.c[C_PERMS] += 1;
+                    for (k, bm) in ex.bm.iter().enumerate() {
+                        for m2 in 0u32..(1 << n) {
+                            // position j of the permuted order holds original witness perm[j]
+                            let mut m = 0u32;
+                            for (j, &src) in perm.iter().enumerate() {
+                                m |= ((m2 >> j) & 1) << src;
+                            }
+                            if (bm >> m2) & 1 != (canon[k] >> m) & 1 {
+                                loc.c[C_ORDER] += 1;
+                            }
                         }
                     }
                 }
             }
-        }
-        counter += 1;
-        // next non-decreasing sequence
-        let mut i = n;
-        loop {
-            if i == 0 {
-                break 'outer;
-            }
-            i -= 1;
-            if (a[i] as usize) < G_TYPES - 1 {
-                a[i] += 1;
-                for j in i + 1..n {
-                    a[j] = a[i];
+            counter += 1;
+            // next non-decreasing sequence
+            let mut i = n;
+            loop {
+                if i == 0 {
+                    break 'outer;
                 }
-                break;
+                i -= 1;
+                if (a[i] as usize) < G_TYPES - 1 {
+                    a[i] += 1;
+                    for j in i + 1..n {
+                        a[j] = a[i];
+                    }
+                    break;
+                }
             }
         }
     }
@@ -1044,6 +1076,12 @@ fn judge_repeated(mon: &Monitor, loc: &mut Loc, rng: &mut Rng, cfg: &CloseGroupV
             }
             continue;
         }
+        if !WITNESS_IS_A_DISTINCT_PEER {
+            if premise_3f1(&fp) || bft_missing(&fp, &p).is_some() {
+                loc.c[C_DUP_BFT] += 1;
+            }
+            continue;
+        }
         let mut d = detail(&v, cand, &ws, &fr, &o);
         d["distinct_witnesses"] = json!(per_peer.iter().zip(peers.iter()).map(|(w, pr)| format!("{} x{} answers", w_str(w), pr.3)).collect::<Vec<_>>());
         d["distinct_trusted_witnesses"] = json!(fp.trusted);
@@ -1098,11 +1136,12 @@ fn main() {
     mon.assume("'distinct response times' of the acceptance corollary = all witnesses pairwise >= 10 ms apart (the library's similarity window)");
     mon.assume("trust values outside [0,1] / NaN are out of domain for the normal-mode share: counted, not judged");
     mon.assume("in the repeated-answers lane a witness is a distinct peer id; trust and region are per peer");
+    mon.extra("witness_reading", json!(if WITNESS_IS_A_DISTINCT_PEER { "distinct peer id" } else { "every answer" }));
     mon.extra("regions_reading", json!(if REGIONS_MUST_COME_FROM_TRUSTED_CONFIRMERS { "confirmations of trusted witnesses" } else { "any confirmation" }));
 
     let max_n = mon.by_tier(4usize, 5usize);
     let done: Vec<AtomicU64> = (0..=MAX_N).map(|_| AtomicU64::new(0)).collect();
-    let per_shard_sampled = mon.by_tier(60_000u64, 1_200_000);
+    let per_shard_sampled = mon.by_tier(60_000u64, 800_000);
     let nshards = mon.shards();
     probes(&mon);
     vkit::run_shards(nshards, mon.seed, |i, mut rng| {
@@ -1159,7 +1198,6 @@ fn main() {
             "size": n, "shapes_expected": expect, "shapes_done": got, "complete": got == expect,
             "confirm_assignments_per_shape": 1u64 << n,
             "validators": vs.len(), "configs": labels, "modes": ["normal", "attack"],
-            "candidate_trust": ["none", "0.1", "0.9"],
         }));
     }
     mon.extra("exhaustive", json!(exhaustive_sizes.len() == max_n + 1));
